@@ -148,7 +148,13 @@ class Tracker:
                 return [(st, "exit", x["l"])]
             return [(st, "fall", None)]
         if e == "inlined":
-            return self.seq(x["body"], st) if False else [(dict(st), "fall", None)]
+            # a file-local helper is part of its caller: what it releases is released, what it allocates and returns is the caller's
+            self._inl = getattr(self, "_inl", 0) + 1
+            try:
+                res = self.seq(x["body"], st)
+            finally:
+                self._inl -= 1
+            return [(s2, "fall" if kind in ("return", "fall") else kind, None if kind in ("return", "fall") else line) for s2, kind, line in res]
         if e == "delete":
             st = dict(st)
             ptr = x["val"]
@@ -175,6 +181,8 @@ class Tracker:
         if e == "return":
             st = dict(st)
             val = x.get("val")
+            if getattr(self, "_inl", 0):
+                return [(st, "return", x["l"])]          # (the return of an inlined helper hands the value to the caller)
             for obj in list(st):
                 if st[obj] == "live" and _contains_obj(val, obj):
                     st[obj] = "escaped"
@@ -209,8 +217,15 @@ class Tracker:
         return [(dict(st), "fall", None)]
 
 
+class _LocalHelpers(Hooks):
+    """file-local static helpers are analysed as part of their callers (a helper that prints and releases the section it is given)"""
+
+    def want_inline(self, ex, callee, node):
+        return bool(callee.get("static")) and not callee.get("record") and not callee.get("lambda") and callee.file == ex.fn.file and ex.depth < 4
+
+
 def function_pairing(v, fn):
-    eff, st, ex = run_function(v, fn, hooks=Hooks())
+    eff, st, ex = run_function(v, fn, hooks=_LocalHelpers())
     return Tracker(fn.q).run(eff), eff
 
 
